@@ -193,7 +193,7 @@ func (h *Handler) processClientPacket(host *packet.Host, req packet.DHCP4) error
 	Logger.Msg("client offer from another dhcp server").ByteArray("xid", req.XId()).ByteArray("clientid", clientID).IP("ip", req.YIAddr()).Write()
 
 	// Force dhcp server to release the IP
-	if h.mode == ModeSecondaryServer || (h.mode == ModeSecondaryServerNice && h.session.IsCaptured(req.CHAddr())) {
+	if mode := h.Mode(); mode == ModeSecondaryServer || (mode == ModeSecondaryServerNice && h.session.IsCaptured(req.CHAddr())) {
 		h.forceDecline(clientID, serverIP, req.CHAddr(), req.YIAddr(), req.XId())
 	}
 	return nil
